@@ -469,14 +469,35 @@ JANET_CORE_FN(cfun_buffer_push_at,
     janet_arity(argc, 2, -1);
     JanetBuffer *buffer = janet_getbuffer(argv, 0);
     int32_t index = janet_getinteger(argv, 1);
-    int32_t old_count = buffer->count;
-    if (index < 0 || index > old_count) {
-        janet_panicf("index out of range [0, %d)", old_count);
+    if (index < 0 || index > buffer->count) {
+        janet_panicf("index out of range [0, %d)", buffer->count);
     }
-    buffer->count = index;
-    buffer_push_impl(buffer, argv, 2, argc);
-    if (buffer->count < old_count) {
-        buffer->count = old_count;
+    /* Write in place without truncating first, so that an argument that is the
+     * buffer itself is read in full and an ill-typed argument does not cut off
+     * the tail of the buffer. */
+    for (int32_t i = 2; i < argc; i++) {
+        uint8_t byte;
+        const uint8_t *bytes;
+        int32_t len;
+        if (janet_checktype(argv[i], JANET_NUMBER)) {
+            byte = (uint8_t)(janet_getinteger(argv, i) & 0xFF);
+            bytes = &byte;
+            len = 1;
+        } else {
+            JanetByteView view = janet_getbytes(argv, i);
+            bytes = view.bytes;
+            len = view.len;
+        }
+        if (len == 0) continue;
+        if (len > INT32_MAX - index) janet_panic("buffer overflow");
+        if (index + len > buffer->capacity) {
+            int self = (bytes == buffer->data);
+            janet_buffer_ensure(buffer, index + len, 2);
+            if (self) bytes = buffer->data;
+        }
+        memmove(buffer->data + index, bytes, len);
+        index += len;
+        if (index > buffer->count) buffer->count = index;
     }
     return argv[0];
 }
